@@ -6,7 +6,7 @@
 use vstd::prelude::*;
 verus! {
 
-//@struct-check file=ruzstd/src/decoding/ringbuffer.rs name=RingBuffer fields="cap: usize; head: usize; tail: usize"
+//@struct-check file=ruzstd/src/decoding/ringbuffer.rs name=RingBuffer fields="cap: usize | head: usize | tail: usize"
 pub struct RingBuffer {
     pub cap: usize,
     pub head: usize,
